@@ -4,8 +4,60 @@ COMMON_ASSUME = [
     "the Lean model is hand-written; its tie to the Rust code is the differential run (sampled, plus the stated exhaustive scopes)",
 ]
 
+JSON_TB = [
+    "serde_json's text parser, Number representation and string escaper are library code: the model encodes the escaping rule "
+    "(DESIGN 9d) and the i64/u64-vs-f64 classification; both are validated differentially",
+    "Rust orders String keys bytewise (UTF-8) = code-point order (strLt in the model); exercised with non-BMP keys",
+]
+
 PROPS = {
+    "C10": {
+        "claim": 'Order-insensitivity (deep member permutations), parse-back by a strict JSON reader, injectivity, sortedness, exact integers and rejection of non-integers are Lean theorems over all JSON values (nested-inductive induction, no size bound); model tied to Json::canonicalize by a differential run and oracles (parse-back with serde_json, re-spelled documents).',
+        "level_note": 'Trusted: Lean kernel; hand-written model of convert/write; serde_json escaping and number classification as library facts (validated differentially); serde_json text reader only sampled.',
+        "technique": 'Lean 4 theorems about an executable model + model/implementation correspondence check (differential run with property oracle)',
+        "rule": "ops = canon(value) for generated serde_json values (model is shown a shuffled member order half of the time) and "
+                "parsej(canonical text) read by the model's strict JSON reader; distinct = distinct op line; non-trivial = value "
+                "is not a bare null/bool",
+        "exhaustive_note": "thorough tier: every Unicode scalar value appears in a canonicalized string (blocks of 64)",
+        "trusted_base": JSON_TB,
+        "partial": ["'whitespace or escape spelling of the source text' is serde_json's reader: covered only by the oracle "
+                    "(re-spelled documents must canonicalize to the same bytes), not by a theorem"],
+        "assumptions": COMMON_ASSUME,
+    },
+    "C11": {
+        "claim": 'signedText v = refCanon v for every JSON value is a Lean theorem about the model of to_signable_text . canonicalize; the model is tied to all three signing/verifying sites and the key-id hash by signature/hash equality probes; an independent Rust OLPC encoder serves as oracle.',
+        "level_note": 'Trusted: Lean kernel; my transcription of the reference (OLPC) encoding; ed25519 determinism for the byte-equality probe; model validated differentially.',
+        "technique": 'Lean 4 theorems about an executable model + model/implementation correspondence check (differential run with property oracle)',
+        "rule": "ops = signed(json of a generated layout/link/key description): the harness signs the model's text with the "
+                "same ed25519 key and requires the library's constructor and builder signatures to be identical and verify() to "
+                "accept it (so a mismatch of the signed bytes at any of the three sites shows as an answer mismatch); "
+                "refcanon(json) cross-checks the harness's independent OLPC encoder with the Lean refCanon; distinct = distinct "
+                "op; all are non-trivial (they reach the signature primitive)",
+        "exhaustive_note": "",
+        "trusted_base": JSON_TB + [
+            "the reference encoding is my transcription of securesystemslib's encode_canonical (only backslash and double quote "
+            "escaped); written twice independently (Lean refCanon, Rust harness/src/olpc.rs) and compared",
+            "ed25519 signatures are deterministic, so equal signatures <=> equal signed bytes up to SHA-512 collisions"],
+        "partial": [],
+        "assumptions": COMMON_ASSUME,
+    },
+    "C05": {
+        "claim": 'Injectivity of canon and of the signed text (distinct JSON values => distinct signed bytes) are Lean theorems for all values; single-leaf edits of generated layouts/links are checked on the real code (old signatures rejected, ed25519 signature changes).',
+        "level_note": 'Trusted: Lean kernel; unforgeability of the signature schemes (ring) for the "never verifies" reading; metadata->JSON injectivity is in C16.',
+        "technique": 'Lean 4 theorems about an executable model + model/implementation correspondence check (differential run with property oracle)',
+        "rule": "cases = generated layouts/links; every single-leaf edit of their JSON (strings, numbers, arrays, object keys, "
+                "expiry +-1s, LF vs backslash-n, quotes) that the parser accepts as a different value: the old signatures must "
+                "not verify and the ed25519 signature must change; ops = signed(json) correspondence as in C11; non-trivial = "
+                "reaches the signature primitive",
+        "trusted_base": JSON_TB + ["'a signature made over one never verifies over the other' additionally rests on the "
+                                   "unforgeability of the schemes (ring); the theorem covers the byte strings"],
+        "partial": ["metadata level: injectivity of the layout/link serialisation is the C16 codec theorem (composed in Props/C16)"],
+        "assumptions": COMMON_ASSUME,
+    },
     "C20": {
+        "claim": 'Round trip unpack(pack(t,p)) = (p,t), injectivity of pack and panic-freedom of unpack are Lean theorems over all byte strings; the model is tied to pae_v1.rs by a differential run (random pairs, mutations, exhaustive framing-alphabet scope) and a direct oracle.',
+        "level_note": 'Trusted: Lean kernel; hand-written model of pae_pack/pae_unpack validated differentially; str::from_utf8 abstracted as a predicate; usize = 64 bit.',
+        "technique": 'Lean 4 theorems about an executable model + model/implementation correspondence check (differential run with property oracle)',
         "rule": "ops = pae_pack(type,payload) on generated pairs, pae_unpack on corpus, mutated encodings, random bytes, "
                 "huge length fields and an exhaustive alphabet scope; distinct = distinct op line; non-trivial = pack ops and "
                 "unpack inputs that carry the 'DSSEv1 ' prefix (get past the prefix guard)",
@@ -20,3 +72,6 @@ PROPS = {
         "assumptions": COMMON_ASSUME + ["trailing bytes after the declared payload are accepted by the code; the property does not forbid it"],
     },
 }
+
+# reasons for properties that are (currently) not claimed
+NOT_CLAIMED = {}
